@@ -25,6 +25,8 @@ def panic_signature(err):
         return "c12.size_t-assert"
     m2 = re.search(r"panicked at ([^\n:]+):\d+:\d+:\n(.*?)(?:\nnote: run with|\nstack backtrace|\Z)", err, re.S)
     full = m2.group(2) if m2 else msg
+    if f.endswith("ir/context.rs") and msg.startswith("Non floating-type complex?"):
+        return "c12.panic:bindgen/ir/context.rs:Non floating-type complex?"         # (`_Complex int`, `_Complex long`, ...: one site)
     if f.endswith("ir/context.rs") and "is not a valid Ident" in full:
         return 'c12.panic:bindgen/ir/context.rs:"…" is not a valid Ident'
     if "/rustc/" in f or "/.cargo/" in f or f.startswith("/"):
@@ -460,6 +462,27 @@ USER_TEXT_OPTS = [
 USER_TEXT_SITES = {"anon-fields-prefix", "dynamic-loading", "ctypes-prefix", "derive-custom", "derive-custom-enum", "extern-fn-block-attrs", "module-raw-line"}
 
 
+def bad_clang_args_cases(chk):
+    """clang arguments libclang cannot build a translation unit from: an error exit, not a panic"""
+    d = chk.dir("badargs")
+    p = write(os.path.join(d, "ok.h"), "int x;\nstruct S { int a; };\n")
+    out = []
+    for k, cargs in enumerate((["--target=bogus-triple"], ["-std=c++99"], ["-x", "nolang"], ["-march=notacpu"], ["-fno-such-flag-at-all"], ["-target"], ["-std=c89", "-x", "c++"],
+                               ["-include", "/nonexistent/vf.h"], ["-I"], ["-D"], ["--sysroot=/nonexistent"])):
+        rc, o, se, cmd, info = run_bindgen(p, [], cargs, d, "ba%d" % k)
+        name = "bad-clang-args-%d" % k
+        obs = {"bad_clang_argument_runs": 1}
+        files = {"input.h": open(p).read(), "cmd.txt": " ".join(cmd), "stderr.txt": se[-3000:]}
+        c = crashed(rc, se)
+        if c:
+            out.append(Verdict(VIOLATED, name, "clang arguments %s: %s" % (cargs, c), files=files, obs=obs, signature=panic_signature(se)))
+        elif rc is None:
+            out.append(Verdict(INCONCLUSIVE, name, "watchdog", obs=obs))
+        else:
+            out.append(Verdict(HELD, name, obs=dict(obs, **{"bad_clang_args_exit.%s" % ("ok" if rc == 0 else "error"): 1}), nontrivial=True, key=name))
+    return out
+
+
 def user_text_cases(chk):
     cases = []
     for oname, mk in USER_TEXT_OPTS:
@@ -509,6 +532,8 @@ def run(chk):
     chk.map(lambda c: deep_case(chk, c), deep_cases(), budget_s=900)
     chk.map(lambda kc: cluster_case(chk, kc[0], kc[1]), list(enumerate(cluster_cases())), budget_s=600)
     chk.map(lambda kc: user_text_case(chk, kc[0], kc[1]), list(enumerate(user_text_cases(chk))), budget_s=600)
+    for v in bad_clang_args_cases(chk):
+        chk.add(v)
     chk.map(lambda i: gen_program_case(chk, i), range(chk.pick(300, 4000)), budget_s=chk.pick(150, 1200))
     d, good, fcases = fs_fault_cases(chk)
     chk.map(lambda c: fs_case(chk, d, c), fcases)
